@@ -349,6 +349,10 @@ def _w_represent(res, p):
     N = p["N"]
     names = {f"p{i}": z3.Real(f"p{i}") for i in range(len(keys))}
     base = [z >= 0 for z in names.values()] + [sum(names.values()) == 1]
+    if p.get("fixed"):
+        # concrete probabilities chosen so that rounding overshoots by several shots; what stays nondeterministic (and is
+        # explored exhaustively, every draw a forked choice) is the random top-up / elimination
+        names, base = {}, []
     if p.get("unnormalised"):
         # an unnormalised distribution object (built with normalize=False) is a legal argument; only the
         # "argument unchanged" clause is examined for it (C20)
@@ -363,7 +367,7 @@ def _w_represent(res, p):
 
     def fn(ex):
         ex._choice = 0
-        ps = [ST.SV(names[f"p{i}"]) for i in range(len(keys))]
+        ps = [ST.SV(names[f"p{i}"]) for i in range(len(keys))] if not p.get("fixed") else [float(x) for x in p["fixed"]]
         d = MOD(dict(zip(keys, ps)), normalize=False)
         before = list(d.distribution_dict.items())
         m = MM.Measurements.get_measurements_representing_distribution(d, N)
@@ -379,6 +383,8 @@ def _w_represent(res, p):
         for s in shots:
             if tuple(s) not in keys:
                 supp.append(z3.BoolVal(False))
+            elif p.get("fixed"):
+                supp.append(z3.BoolVal(p["fixed"][keys.index(tuple(s))] > 0))
             else:
                 supp.append(names[f"p{keys.index(tuple(s))}"] > 0)
         records.append(("shots-on-support",) + ex.prove(z3.And(*supp) if supp else True))
@@ -460,7 +466,11 @@ GROUND_DISTS = {
     "halves": {(0,): 0.5, (1,): 0.5},
     "skewed": {(0, 0): 0.001, (0, 1): 0.333, (1, 0): 0.333, (1, 1): 0.333},
     "with-zero": {(0, 0): 0.0, (0, 1): 0.25, (1, 0): 0.75},
+    # rounding overshoots by 2 / 3 shots (halves round to even), two / three outcomes hold no shot but may be drawn for elimination
+    "overshoot2": {tuple(int(c) for c in format(i, "03b")): w for i, w in enumerate([0.1875] * 5 + [0.03125] * 2)},
+    "overshoot3": {tuple(int(c) for c in format(i, "04b")): w for i, w in enumerate([0.15] * 6 + [0.025] * 4)},
 }
+MANY_SEEDS = {"overshoot2": {8: 60}, "overshoot3": {10: 60}}
 
 
 def _w_represent_ground(res, p):
@@ -487,10 +497,18 @@ def instances(tier, seed):
         reps += [([[0, 0], [0, 1], [1, 0], [1, 1]], 1)]
     for keys, N in reps:
         items.append(("represent", {"keys": keys, "N": N, "label": f"represent keys={keys} N={N}"}))
+    # rounding that overshoots / undershoots by SEVERAL shots (Python rounds halves to even: 1.5 -> 2, 0.5 -> 0, 2.5 -> 2), with
+    # outcomes that hold no shot at all among the candidates for elimination; every random draw is a forked choice
+    k3 = [[int(c) for c in format(i, "03b")] for i in range(8)]
+    # (the overshooting counterpart - 5 x 3/16 + 2 x 1/32 with N = 8 - exceeds 6000 forked paths in the elimination loop; it is
+    # run as a ground instance with seeded numpy randomness below: "overshoot2", "overshoot3")
+    items.append(("represent", {"keys": k3[:6], "N": 10, "fixed": [0.25, 0.25, 0.25, 0.05, 0.05, 0.15], "max_paths": 6000, "label": "represent 6 outcomes 3x0.25 + 2x0.05 + 0.15, N=10 (rounding undershoots by 2)"}))
+    if tier == "thorough":
+        items.append(("represent", {"keys": k3, "N": 10, "fixed": [0.15] * 5 + [0.05] * 3, "max_paths": 20000, "label": "represent 8 outcomes 5x0.15 + 3x0.05 (unnormalised 0.9), N=10"}))
     rng = random.Random(seed + 5)
     for name in GROUND_DISTS:
-        for N in ([1, 3, 7, 100] if tier == "quick" else [1, 2, 3, 5, 7, 10, 33, 100, 1000]):
-            for s in range(10 if tier == "quick" else 30):
+        for N in sorted(set(([1, 3, 7, 100] if tier == "quick" else [1, 2, 3, 5, 7, 10, 33, 100, 1000]) + list(MANY_SEEDS.get(name, {})))):
+            for s in range(MANY_SEEDS.get(name, {}).get(N, 10) * (1 if tier == "quick" else 4)):
                 items.append(("represent-ground", {"dist": name, "N": N, "seed": rng.randrange(10**6), "label": f"represent-ground {name} N={N} #{s}"}))
     return items
 
@@ -589,7 +607,9 @@ def replay(data):
 
             keys = [tuple(k) for k in p["keys"]]
             ps = [max(0.0, float(vals.get(f"p{i}", 1 / len(keys)))) for i in range(len(keys))]
-            for seed in range(200):
+            if p.get("fixed"):
+                ps = [float(x) for x in p["fixed"]]
+            for seed in range(200 if not p.get("fixed") else 1500):
                 np.random.seed(seed)
                 d = MOD(dict(zip(keys, ps)), normalize=False)
                 try:
